@@ -601,15 +601,16 @@ def check_one(pid, tier):
         try:
             sys.path.insert(0, os.path.join(ROOT, "lib"))
             import kani_codes
-            k3 = kani_codes.run()
+            k3s = kani_codes.run()
         except Exception as e:  # noqa
-            k3 = {"harness": "errcode_table", "status": "error", "detail": str(e)[:200]}
-        kani_cc.append(k3)
-        if k3["status"] == "error":
-            undec_reasons.append("kani harness errcode_table did not finish: %s" % str(k3.get("detail", ""))[:160])
-        elif k3["status"] == "failed" and k3.get("replay_exit_code") != 1:
-            undec_reasons.append("kani harness errcode_table failed but its input does not fail on the real code: %s" % str(k3.get("input")))
-            k3["status"] = "unconfirmed"
+            k3s = [{"harness": "errcode_table", "status": "error", "detail": str(e)[:200]}]
+        for k3 in k3s:
+            kani_cc.append(k3)
+            if k3["status"] == "error":
+                undec_reasons.append("kani harness %s did not finish: %s" % (k3["harness"], str(k3.get("detail", ""))[:160]))
+            elif k3["status"] == "failed" and k3.get("replay_exit_code") != 1:
+                undec_reasons.append("kani harness %s failed but its input does not fail on the real code: %s" % (k3["harness"], str(k3.get("input"))))
+                k3["status"] = "unconfirmed"
     hard = [u for u in undec_reasons if "supporting obligation" not in u]
     if hard:
         return undecided("; ".join(hard)[:600])
